@@ -44,7 +44,9 @@ def parse_model(line):
 
 
 def run_interp_check(pid, gen, fields, counts, tier, seed, rule, design_ref, extra_assumptions=(), known_sig=None,
-                     max_dropped=0.10, impl_oracle=None):
+                     max_dropped=0.10, impl_oracle=None, expectations=()):
+    """expectations: directed programs with what the PROPERTY says they must yield (not the model):
+    dicts {src, field, want, why, finding (optional id of a known_findings.txt entry)}"""
     res = Result(pid, tier, seed)
     harness = common.build_harness()
     bad = common.forbidden_scan()
@@ -104,6 +106,27 @@ def run_interp_check(pid, gen, fields, counts, tier, seed, rule, design_ref, ext
             mism += 1
             if len(res.violations) < 8:
                 res.violation(rec)
+        # directed expectations stated by the property itself, checked on the implementation alone
+        exp_checked = 0
+        if expectations:
+            sf = os.path.join(scratch, "expect.json")
+            json.dump([e["src"] for e in expectations], open(sf, "w"))
+            common.sh([harness, "interp", "-srcfile", sf, "-out", scratch], env=common.GOENV, timeout=600)
+            drecs = [json.loads(l) for l in open(os.path.join(scratch, "directed.jsonl"))]
+            known_ids = {k.get("id"): k for k in known}
+            for e, rec in zip(expectations, drecs):
+                exp_checked += 1
+                got = rec["impl"].get(e["field"]) if e["field"] != "status" else rec["impl"]["status"]
+                if rec["impl"]["status"] == "panic":
+                    got = "panic"
+                if str(got) == str(e["want"]):
+                    continue
+                if e.get("finding") and e["finding"] in known_ids:
+                    res.known(e["finding"], "%s :: %s (got %s, the property requires %s)" % (e["finding"], e["why"], got, e["want"]))
+                    continue
+                mism += 1
+                res.violation({"property": pid, "kind": "the implementation contradicts the property on a directed program: " + e["why"],
+                               "source": e["src"], "field": e["field"], "required": e["want"], "impl": rec["impl"]})
         ndropped = sum(dropped.values())
         if cases and ndropped > max_dropped * len(cases):
             raise CheckError("%d of %d programs are outside the modelled fragment (%s): the check would pass thinly"
@@ -127,7 +150,7 @@ def run_interp_check(pid, gen, fields, counts, tier, seed, rule, design_ref, ext
                 "strconv/fmt float routines (oracle tables filled from the real functions)"],
             "evaluations": len(cases), "compared": compared, "distinct_nontrivial": meta["distinct_nontrivial"],
             "dropped_outside_fragment": dropped, "mismatches": mism, "implementation_panics": panics,
-            "compared_fields": list(fields), "rule": rule, "constructs": meta["constructs"],
+            "compared_fields": list(fields), "rule": rule, "directed_expectations_checked": exp_checked, "constructs": meta["constructs"],
             "samples": [{"src": c["src"][:600], "impl": c["impl"]} for c in cases[len(cases) // 2: len(cases) // 2 + 2]],
             "make_ok": ok_make,
         }
